@@ -4,7 +4,7 @@ VERIF = os.path.dirname(os.path.dirname(os.path.abspath(__file__)))
 JAR = "/opt/veriftools/tla/tla2tools.jar:/opt/veriftools/tla/CommunityModules-deps.jar"
 def main():
     spec = os.path.join(VERIF, "spec")
-    open(os.path.join(spec, "MCFamily.tla"), "w").write("---- MODULE MCFamily ----\nEXTENDS Integers\nFamily == <<>>\nMaxCreated == 1\n====\n")
+    open(os.path.join(spec, "MCFamily.tla"), "w").write("---- MODULE MCFamily ----\nEXTENDS Integers\nFamily == <<>>\nMaxCreated == 1\nExportDepth == 5\n====\n")
     rc = 0
     for m in ["CiwTrace.tla", "CiwMC.tla"]:
         p = subprocess.run(["java", "-cp", JAR, "tla2sany.SANY", m], cwd=spec, capture_output=True, text=True)
